@@ -140,8 +140,14 @@ def run(repo, chk):
                 # the guard `if self.handlers` wraps both: release is required only under the same condition (checked below)
                 ok, path, nrel = released_under_guard(r, res, ctxvars, guard_of(a.node, "set", ctxvars))
             else:
-                ok, path, nrel = released_on_all_normal_paths(r, res, ctxvars, acq_loop_iter=loops.get(res),
-                                                              cut_false_of=GUARD_EXEMPT.get(rel_q, ()))
+                exempt = list(GUARD_EXEMPT.get(rel_q, ()))
+                if rel_q == "overlay._untooler":
+                    # other spellings of "this function has no stack": `st is not None` / `st` with st = getattr(fn, '__ptera_stack__', None)
+                    fr = facts_of(r)
+                    p0 = r.node.args.args[0].arg
+                    for v_ in fr.bound_to(f"getattr({p0}, '__ptera_stack__', None)"):
+                        exempt += [f"{v_} is not None", v_]
+                ok, path, nrel = released_on_all_normal_paths(r, res, ctxvars, acq_loop_iter=loops.get(res), cut_false_of=tuple(exempt))
             chk.ob("R05.2", f"{rel_q}:releases:{res}", ok, r.where,
                    f"{rel_q} releases {res} (acquired by {detail} in {acq_q}) on every normal path"
                    + ("" if ok else f" -- {'no release statement found' if not nrel else 'path without release: ' + ' -> '.join(path or [])}"))
@@ -158,6 +164,12 @@ def run(repo, chk):
                   and c.func.attr == "reset" and c.args]
         chk.ob("R05.2", f"{cls}:token-agreement", len(toks) == 1 and toks[0] is not None and resets == [toks[0]], ex.where,
                f"__exit__ resets with the token __enter__ stored ({toks} vs {resets})")
+        from ..pairing import raising_before_release
+        cvres = f"ctxvar:{[c for c in ctxvars if 'current' in c][0]}"
+        early = raising_before_release(ex, cvres, ctxvars, cg)
+        chk.ob("R05.2", f"{cls}.__exit__:nothing-may-raise-before-the-reset", not early, ex.where,
+               "the execution context is restored before anything that may raise runs (closing accumulators calls user callbacks): an exception in a close handler cannot leave the inner collection installed"
+               + (f" -- may raise first: {early}" if early else ""))
     # inverse counter updates
     pu, po = repo.func("transform.StackedTransforms.push"), repo.func("transform.StackedTransforms.pop")
     ups = lambda fn: sorted((norm(n.target), type(n.op).__name__, norm(n.value), loop_iter(n)) for n in walk_local(fn.node) if isinstance(n, ast.AugAssign))
@@ -193,7 +205,7 @@ def run(repo, chk):
     pops = [c for c in ast.walk(un.node) if isinstance(c, ast.Call) and isinstance(c.func, ast.Attribute) and c.func.attr == "pop"]
     params = [a.arg for a in un.node.args.args]
     chk.ob("R05.2", "overlay._untooler:pops-same-captures", len(pops) == 1 and len(params) == 2 and norm(pops[0].args[0]) == params[1]
-           and expand(pops[0].func.value, un.node) == f"{params[0]}.__ptera_stack__", un.where, "_untooler pops exactly the capture set it is given from the function's stack")
+           and _object_read(pops[0].func.value, un.node) in (f"{params[0]}.__ptera_stack__", f"getattr({params[0]}, '__ptera_stack__', None)"), un.where, "_untooler pops exactly the capture set it is given from the function's stack")
     tl = repo.func("overlay._tooler")
     pushes = [c for c in ast.walk(tl.node) if isinstance(c, ast.Call) and isinstance(c.func, ast.Attribute) and c.func.attr == "push"]
     chk.ob("R05.2", "overlay._tooler:pushes-given-captures", len(pushes) == 1 and norm(pushes[0].args[0]) == [a.arg for a in tl.node.args.args][1], tl.where,
@@ -348,6 +360,15 @@ def loop_iter(node):
             return norm(cur.iter)
         cur = getattr(cur, "_parent", None)
     return None
+
+
+def _object_read(recv, fn):
+    """Where the object a method is called on was read from: the receiver expression itself, or the value of the single plain assignment to the local that holds it."""
+    if isinstance(recv, ast.Name):
+        defs = [n for n in ast.walk(fn) if isinstance(n, ast.Assign) and any(is_name(t, recv.id) for t in n.targets)]
+        if len(defs) == 1:
+            return norm(defs[0].value)
+    return norm(recv)
 
 
 def guard_of(fn, method, ctxvars):
